@@ -113,6 +113,19 @@ def check_module(res, c, T):
             return
         for path, x, y in snapshot.diff(S_new, build.norm_module(snapshot.snap_module(cl2, "synth"), "after"))[:3]:
             res.violation(f"C02:resave-stale:{T}:{snapshot.field_key(path)}", f"{T}: after in-place edits {applied[:4]} and a second save, {path}: object {x}, file {y}", desc)
+    # (e) the same on a LOADED instance (the clone): here embedded controller edits are plain edits (no MetaModule link)
+    syn3 = api.Synth(cl)
+    applied = c06.mutate_live(syn3, _random.Random(c.seed * 15485863 + c.index), 8, prefer=("/payload/project/", "/effect/"))
+    if applied:
+        res.count("resave_after_edit_loaded")
+        S_new = build.norm_module(snapshot.snap_module(cl, "synth"), "before")
+        try:
+            cl3 = cl.clone()
+        except Exception as e:
+            res.violation(f"C02:resave-raises:{T}:{workload.exc_key(e)}", f"{T}: saving the loaded instance after in-place edits {applied[:3]} raised {e!r}", desc)
+            return
+        for path, x, y in snapshot.diff(S_new, build.norm_module(snapshot.snap_module(cl3, "synth"), "after"))[:3]:
+            res.violation(f"C02:resave-stale-loaded:{T}:{snapshot.field_key(path)}", f"{T}: loaded instance edited in place {applied[:4]} then saved: {path}: object {x}, file {y}", desc)
     # unit coverage
     t = spec.load()[T]
     for sc in t.controllers:
